@@ -203,6 +203,8 @@ class State:
             tl, tr = self.types(t[2]), self.types(t[3])
             if tl is not None and tr is not None and len(tl) == 1 and tl == tr and tl <= {"str", "bytes", "list", "tuple"}:
                 ts = tl
+            elif tl and tr and all(x.startswith("obj:datetime.") for x in tl | tr) and any("datetime.datetime" in x for x in tl | tr):
+                ts = frozenset(["obj:datetime.datetime"])  # a datetime moved by a timedelta
         for f in self.closure():
             if f[0] == "type" and f[1] == t:
                 ts = f[2] if ts is None else ts & f[2]
